@@ -740,6 +740,19 @@ def resolve_member_pointers(fd, callee_by_did=None):
                     n.pop("op", None)
         # an indirect call through a parameter that is bound to the constant `&function` (a callable handed to a helper,
         # e.g. descend(root, &get_left)) is a direct call of that function
+        # `(obj->*pm)(args)` with pm bound to the constant `&Class::method`
+        if n.get("k") == "CXXMemberCallExpr" and not n.get("callee") and "fn" in n:
+            b = nodes[strip(n["fn"])]
+            if b.get("k") == "BinaryOperator" and b.get("op") in ("->*", ".*") and len(b.get("c", [])) == 2:
+                r = nodes[strip(b["c"][1])]
+                if r.get("k") == "UnaryOperator" and r.get("op") == "&" and r.get("c"):
+                    r = nodes[strip(r["c"][0])]
+                if r.get("k") == "DeclRefExpr" and r.get("dk") == "CXXMethod" and r.get("d") is not None:
+                    tmpl = (callee_by_did or {}).get(r["d"])
+                    n["callee"] = dict(tmpl) if tmpl is not None else {
+                        "qn": r.get("qn", r.get("n")), "uq": r.get("qn", r.get("n")), "n": r.get("n"), "did": r["d"], "kind": "method"}
+                    n["obj"] = b["c"][0]
+                    n["via_function_pointer"] = True
         if n.get("k") == "CallExpr" and not n.get("callee") and "fn" in n:
             r = nodes[strip(n["fn"])]
             if r.get("k") == "UnaryOperator" and r.get("op") == "&" and r.get("c"):
